@@ -35,6 +35,7 @@ class Piece:
         self.text = text
         self.value = value    # P
         self.spec = spec      # Spec
+        self.conv = None      # 'r' | 's' | 'a' conversion of an f-string field
 
     @property
     def width(self):
@@ -71,7 +72,9 @@ def pieces_of(term: P):
                         stext = sa[1]
                     else:
                         stext = None
-                out.append(Piece("fmt", value=p[1], spec=Spec(stext) if stext is not None else Spec("?")))
+                pc = Piece("fmt", value=p[1], spec=Spec(stext) if stext is not None else Spec("?"))
+                pc.conv = {114: "r", 115: "s", 97: "a"}.get(p[2]) if isinstance(p[2], int) else None
+                out.append(pc)
         return out
     return None
 
@@ -86,3 +89,15 @@ def column_map(pieces):
         if pos is not None:
             pos = pos + w if w is not None else None
     return out
+
+
+def float_roundtrips(piece) -> bool:
+    """The field writes a float so that it reads back to the same float: repr (shortest round trip) or >= 17 significant digits."""
+    if piece.kind != "fmt":
+        return False
+    if piece.conv == "r":
+        return True
+    sp = piece.spec
+    if sp.type in ("e", "E", "g", "G") and (sp.prec or 0) >= 17:
+        return True
+    return False
